@@ -157,6 +157,35 @@ theorem proxy_unbound_reports (w : World) (c : Nat) (p : Proxy) (h : resolve w c
     proxyView w c p = { obj := none, truthy := false, fallbackRepr := true } := by
   simp [proxyView, h]
 
+/-- **Falsy bound objects are bound.** The unbound test of the `LocalStack` closure in
+`LocalProxy.__init__` (taken from the AST on every run) is `obj is None`, so for every choice of
+which values are falsy (empty dict / list, 0, "", an object whose `__len__()` is 0 or whose
+`__bool__` is False, ...) the proxy resolves to exactly the object `top` returns in the accessing
+context: `_get_current_object()` yields it, `repr` is not the fallback, and `bool(proxy)` is the
+object's own truth value. -/
+theorem proxy_bound_even_if_falsy :
+    Gen.LocalOps.stackProxyTest = .isNone ∧
+    ∀ (falsy : Nat → Bool) (w : World) (c : Nat) (p : Proxy),
+      resolveSrc falsy w c p = resolve w c p ∧
+      ∀ x, resolve w c p = some x →
+        proxyViewSrc falsy w c p = { obj := some x, truthy := !falsy x, fallbackRepr := false } := by
+  have ht : Gen.LocalOps.stackProxyTest = .isNone := by decide
+  refine ⟨ht, ?_⟩
+  intro falsy w c p
+  have hr : resolveSrc falsy w c p = resolve w c p := by
+    cases p with
+    | attr v k => rfl
+    | top v =>
+      simp only [resolveSrc, ht]
+      cases resolve w c (.top v) <;> rfl
+  refine ⟨hr, ?_⟩
+  intro x hx
+  simp [proxyViewSrc, hr, hx]
+
+/-- a bound falsy object on the stack (token 2, declared falsy) is still what the proxy yields -/
+example : proxyViewSrc (fun x => x == 2) (run World.init [.call 0 1 stackPush ⟨0, 2⟩]) 0 (.top 1)
+    = { obj := some 2, truthy := false, fallbackRepr := false } := by decide
+
 example : resolve World.init 0 (.attr 0 1) = none := by decide
 example : resolve (run World.init [.call 0 0 localSetattr ⟨1, 5⟩]) 0 (.attr 0 1) = some 5 := by decide
 example : resolve (run World.init [.call 0 0 localSetattr ⟨1, 5⟩, .freshCtx]) 1 (.attr 0 1) = none := by
